@@ -484,6 +484,43 @@ def rule_overlay_covers_cursor(ctx: Ctx) -> RuleResult:
     return rr
 
 
+def rule_working_copy(ctx: Ctx) -> RuleResult:
+    """The in-place operations of CompositeCanvas work on a local: `shards = self.shards`, the local is replaced by the
+    trimmed list, pieces are taken from it, and the result is stored back into the attribute.  Once the local has
+    been replaced, the attribute still holds the *unprocessed* value: reading `self.<attr>` again before the
+    write-back mixes the two states (seed C02-r8a: pad_trim_left_right took the first shard from self.shards - for a
+    trim on one side and a pad on the other the trim of that shard was lost, the rows came out ragged).  For every
+    local initialised from a self attribute and redefined later: no read of that attribute is reachable from the
+    redefinition without passing a store to the attribute."""
+    p = ctx.p
+    rr = RuleResult("ORDER", "C02.19", "after a working copy of self.<attr> was replaced by a processed value, the attribute is not read again before it is stored", floor=2)
+    for fi in p.functions.values():
+        if fi.module.name != CV or fi.is_lambda or not fi.self_name:
+            continue
+        inits = [n for n in fi.own_nodes() if isinstance(n, ast.Assign) and len(n.targets) == 1 and isinstance(n.targets[0], ast.Name) and isinstance(n.value, ast.Attribute) and isinstance(n.value.value, ast.Name) and n.value.value.id == fi.self_name]
+        if not inits:
+            continue
+        du = DefUse(fi)
+        cfg = du.cfg
+        for init in inits:
+            local, attr = init.targets[0].id, init.value.attr
+            redefs = [dn for dn, v, how in du.defs.get(local, []) if dn.ast is not init]
+            if not redefs:
+                continue
+            stores = nodes_where(cfg, lambda x: isinstance(x, ast.Attribute) and isinstance(x.ctx, ast.Store) and x.attr == attr and isinstance(x.value, ast.Name) and x.value.id == fi.self_name)
+            after = cfg.reachable(redefs, avoid=stores, labels=("n", "T", "F"))
+            rr.inst(f"{short(fi)}: {local} = self.{attr}", True, {"function": short(fi), "working_copy": f"{local} = self.{attr}", "redefinitions": len(redefs)})
+            for n in after:
+                if n in redefs and not any(n in cfg.reachable([r], avoid=stores, labels=("n", "T", "F")) - {r} for r in redefs):
+                    continue
+                for e in node_exprs(n):
+                    for x in walk_no_nested(e):
+                        if isinstance(x, ast.Attribute) and isinstance(x.ctx, ast.Load) and x.attr == attr and isinstance(x.value, ast.Name) and x.value.id == fi.self_name:
+                            # `<saved> is self.<attr>` identity tests compare, they do not take data from the attribute
+                            rr.add(finding("ORDER", fi, x, f"`self.{attr}` is read in `{norm(n.stmt if hasattr(n, 'stmt') and n.stmt is not None else e, 60)}` after the working copy `{local}` was replaced by a processed value and before the result is stored: the attribute still holds the unprocessed {attr} - pieces of both states end up in one canvas (rows of different width, a trim that is silently lost)", construct=f"{fi.name}: self.{attr} read after {local} was replaced"))
+    return rr
+
+
 def run(ctx: Ctx):
     p = ctx.p
     return [
@@ -500,6 +537,7 @@ def run(ctx: Ctx):
         rule_trim_mirror(ctx),
         posbound.run_posbound(p, "C02.17", [CV], floor=2),
         rule_overlay_covers_cursor(ctx),
+        rule_working_copy(ctx),
         alias.run_inplace_own(p, "C02.14", [CV], floor=6, exempt=_OWN_EXEMPT),
         rule_get_or(ctx),
         accum.run_accum(p, "C02.9", "C02", floor=5),
